@@ -79,6 +79,18 @@ def run(ctx):
         # every other caller owns mutable buffers and uses them again afterwards
         mutable = len(held) % 2 == 1
         mb, kb = (bytearray(msg), bytearray(mask)) if mutable else (hgen.as_caller_bytes(bytes(msg), len(held) // 2), hgen.as_caller_bytes(bytes(mask), len(held) // 2 + 2))
+        if len(held) % 7 == 3:
+            # a refused call comes first (a mask or message of the wrong kind: whatever it does is outside the statement) - the
+            # call after it is an ordinary one and must be right
+            for bad_msg, bad_mask in ((mb, None), (mb, 0x969696), (list(msg[:5]) + [None] * 4, kb), (list(msg[:8]) + [256], kb), (mb[:8], kb)):
+                try:
+                    RS.generate(bad_msg, bad_mask)
+                except Exception:  # noqa
+                    pass
+                try:
+                    RS.check(bad_msg, bad_mask)
+                except Exception:  # noqa
+                    pass
         out = RS.generate(mb, kb)
         if mutable and (bytes(mb) != bytes(msg) or bytes(kb) != bytes(mask)):
             out = bytes(12)          # recorded as a wrong word: the caller's buffers were altered
